@@ -10,4 +10,16 @@ open Mp4ff.Generated
 /-- all functions recorded for `model` are present -/
 def presentFor (model : String) : Bool := (transcribed.filter (fun e => e.1 == model)).all (fun e => e.2.2)
 
+/-- the flag bits the box layouts (`Model/Boxes.lean`: trun, tfhd) and the fragment model (`Model/Frag.lean`) hard-code are
+    the constants of the current source (mp4/trun.go, mp4/tfhd.go, mp4/sampleflags.go, mp4/audiosamplentry.go) -/
+theorem flag_constants :
+    const_TrunDataOffsetPresentFlag = 0x01 ∧ const_TrunFirstSampleFlagsPresentFlag = 0x04 ∧
+    const_TrunSampleDurationPresentFlag = 0x100 ∧ const_TrunSampleSizePresentFlag = 0x200 ∧
+    const_TrunSampleFlagsPresentFlag = 0x400 ∧ const_TrunSampleCompositionTimeOffsetPresentFlag = 0x800 ∧
+    const_baseDataOffsetPresent = 0x01 ∧ const_sampleDescriptionIndexPresent = 0x02 ∧
+    const_defaultSampleDurationPresent = 0x08 ∧ const_defaultSampleSizePresent = 0x10 ∧
+    const_defaultSampleFlagsPresent = 0x20 ∧ const_durationIsEmpty = 0x010000 ∧ const_defaultBaseIsMoof = 0x020000 ∧
+    const_SyncSampleFlags = 0x02000000 ∧ const_NonSyncSampleFlags = 0x00010000 ∧
+    const_nrAudioSampleBytesBeforeChildren = 36 := by decide
+
 end Mp4ff.Expect
